@@ -31,6 +31,9 @@ type ugcSpec struct {
 		Flags    map[string]bool `json:"extra_flags"`
 		Elements []string        `json:"extra_elements"`
 		MustCall []string        `json:"must_call"`
+		Attrs    map[string][]string `json:"extra_attrs"`
+		Global   []string            `json:"extra_global_attrs"`
+		Schemes  []string            `json:"extra_schemes"`
 	} `json:"cmd"`
 }
 
